@@ -316,7 +316,7 @@ def stress_inputs(r):
 
 def run_stress(ctx, J):
     """Pathological short inputs in a child process under RLIMIT_CPU: a kill at the CPU limit is a verdict on CPU time (the
-    envelope for a < 3 kB input is ~0.3 s; the limit is 20 s), never on wall clock."""
+    envelope for a < 3 kB input is ~0.3 s; the limit is 12 s), never on wall clock."""
     import json
     import resource
     import subprocess
@@ -328,8 +328,9 @@ def run_stress(ctx, J):
     fd, path = tempfile.mkstemp(prefix="mf-stress-", suffix=".json")
     with os.fdopen(fd, "w") as f:
         json.dump(inputs, f)
-    limit = 20
+    limit = 12
     start = 0
+    kills = 0
     env = dict(os.environ, PYTHONPATH=core.VERIF + os.pathsep + core.DEPS)
     try:
         while start < len(inputs):
@@ -363,6 +364,10 @@ def run_stress(ctx, J):
                               {"killed_at_cpu_seconds": limit, "returncode": p.returncode, "bound_ms": ((J.C or 0) * n + J.D) / 1e6},
                               "within the CPU envelope")
                 start = started + 1
+                kills += 1
+                if kills >= 3:
+                    res.notes.append("stress: stopped after 3 inputs killed at the CPU limit in this shard")
+                    break
             else:
                 res.inconclusive_because(f"stress child died without a culprit (rc={p.returncode}): {p.stderr[-300:]}")
                 break
